@@ -4266,7 +4266,16 @@ ZSTD_compressBlock_splitBlock_internal(ZSTD_CCtx* zc,
     }
 
     ZSTD_deriveSeqStoreChunk(currSeqStore, &zc->seqStore, 0, partitions[0]);
-    for (i = 0; i <= numSplits; ++i) {
+    for (i = 0; i <= numSplits; ++i)
+    ZSTD_VERIF_LOOP(
+        __CPROVER_assigns(i, ip, op, dstCapacity, cSize, srcBytesTotal, dRep, cRep,
+                          __CPROVER_object_whole(zc), __CPROVER_object_whole(dst),
+                          __CPROVER_object_whole(zc->blockState.prevCBlock), __CPROVER_object_whole(zc->blockState.nextCBlock))
+        __CPROVER_loop_invariant(i <= numSplits + 1
+                              && cSize + dstCapacity == __CPROVER_loop_entry(dstCapacity)
+                              && op == __CPROVER_loop_entry(op) + cSize)
+        __CPROVER_decreases(numSplits + 1 - i))
+    {
         size_t cSizeChunk;
         U32 const lastPartition = (i == numSplits);
         U32 lastBlockEntireSrc = 0;
